@@ -272,6 +272,7 @@ class World:
         A.set_plan([])
         self.journal("%s done" % tag)
         slots[k] = res
+        self.last = (ops, slots)
         mon = tr.check(k, ops[k])
         if m3 is not None:
             m3["kind"] = "M3_argument_mutated"
@@ -321,6 +322,15 @@ def check_faulted(world, case, plan, ref_out, out, st, mon, ctr, sites, min_size
         viols.append(dict(base, kind="heap_buffer_leaked", leaks=st["leaks"], bytes=st["leak_bytes"], site=_site(st) if st["fired"] else None))
     for v in mon:
         viols.append(dict(base, **v))
+    # O5: the same target call again on the *very same operand objects* (a failed accessor must not
+    # have left a partial value in the object's memo)
+    if st["fired"] and case["setup"]:
+        ops_, slots_ = world.last
+        k_ = len(ops_) - 1
+        world.A.set_plan([])
+        out1, _, _ = W.apply_op(ops_[k_], slots_)
+        if out1 != ref_out:
+            viols.append(dict(base, kind="later_call_wrong", got=_trim(out1), want=_trim(ref_out), when="same operand objects, right after the fault"))
     # O4/O5: the same operation, fault-free, right afterwards -- first with the caches exactly as the
     # faulted call left them (a MemoryError must not have been memoised as a half-built value in
     # any LRU, side table or per-object memo), then once more from empty caches
